@@ -469,6 +469,57 @@ static int write_table(SB* s, Built* b, FILE* f)
 /* read a whole file from g_f the way a caller does; dump everything.
    subset: 0 = none, else string of '0'/'1' per column (padded with '0').
    rewrite: also write back what was read and print the bytes. */
+/* decode every column / property of the slices and re-encode it with the default encoding;
+   write header, metadata, re-encoded slices, end marker to g_w; print statuses and bytes */
+static void reencode_dflt(SB* s, sbdf_tablemetadata* tm, sbdf_tableslice** ts, int nts)
+{
+	int i, j, p, st = sbdf_fh_write_cur(g_w);
+	size_t n;
+	unsigned char* bytes;
+	sb_printf(s, " rd:fh=%d", st);
+	if (!st) { st = sbdf_tm_write(g_w, tm); sb_printf(s, " tm=%d", st); }
+	for (i = 0; i < nts && !st; ++i)
+	{
+		sbdf_tableslice* nt = 0;
+		sbdf_columnslice** ncs = calloc((size_t)ts[i]->no_columns + 1, sizeof(void*));
+		sbdf_valuearray** nva = 0;
+		int nnva = 0;
+		st = sbdf_ts_create(tm, &nt);
+		for (j = 0; j < ts[i]->no_columns && !st; ++j)
+		{
+			sbdf_columnslice* c = ts[i]->columns[j];
+			sbdf_object* o = 0;
+			sbdf_valuearray* v = 0;
+			st = sbdf_va_get_values(c->values, &o);
+			if (!st) { st = sbdf_va_create_dflt(o, &v); sbdf_obj_destroy(o); }
+			if (st) break;
+			nva = realloc(nva, sizeof(void*) * (size_t)(nnva + 1)); nva[nnva++] = v;
+			st = sbdf_cs_create(&ncs[j], v);
+			for (p = 0; p < c->prop_cnt && !st; ++p)
+			{
+				o = 0; v = 0;
+				st = sbdf_va_get_values(c->properties[p], &o);
+				if (!st) { st = sbdf_va_create_dflt(o, &v); sbdf_obj_destroy(o); }
+				if (st) break;
+				nva = realloc(nva, sizeof(void*) * (size_t)(nnva + 1)); nva[nnva++] = v;
+				st = sbdf_cs_add_property(ncs[j], c->property_names[p], v);
+			}
+			if (!st) st = sbdf_ts_add(ncs[j], nt);
+		}
+		if (!st) st = sbdf_ts_write(g_w, nt);
+		sb_printf(s, " ts=%d", st);
+		sbdf_ts_destroy(nt);
+		for (j = 0; j < ts[i]->no_columns; ++j) sbdf_cs_destroy(ncs[j]);
+		for (j = 0; j < nnva; ++j) sbdf_va_destroy(nva[j]);
+		free(ncs); free(nva);
+	}
+	if (!st) { st = sbdf_ts_write_end(g_w); sb_printf(s, " end=%d", st); }
+	bytes = f_slurp(g_w, &n);
+	sb_puts(s, " bytes=");
+	sb_hexq(s, bytes, n);
+	free(bytes);
+}
+
 static void read_file(SB* s, size_t flen, const char* subset, int probe, int rewrite)
 {
 	int maj = -1, min = -1, st, ncalls = 0, posok = 0;
@@ -530,6 +581,11 @@ done:
 		sb_puts(s, " bytes=");
 		sb_hexq(s, bytes, n);
 		free(bytes);
+		if (rewrite == 2 && posok)
+		{
+			f_reset(g_w);
+			reencode_dflt(s, tm, kept, nkept);
+		}
 	}
 	for (i = 0; i < nkept; ++i) sbdf_ts_destroy(kept[i]);
 	free(kept);
@@ -861,6 +917,72 @@ static void sc_md(SB* s, Toks* k)
 	sb_printf(s, "live=%ld", vf_live - live0);
 }
 
+/* cs VASPEC n (name VASPEC){n} m : column slice history.  Every addition prints status/prop_cnt;
+   then every name is looked up (identity of the returned array = index of the addition that
+   supplied it); the slice is written; it is added m times to a table slice. */
+static void sc_cs(SB* s, Toks* k)
+{
+	sbdf_valuearray* values = 0;
+	sbdf_valuearray** arr = 0;
+	char** names = 0;
+	sbdf_columnslice* cs = 0;
+	sbdf_tableslice* ts = 0;
+	long live0 = vf_live;
+	int st = parse_va(k, &values), n, i, m;
+	size_t nb;
+	unsigned char* b;
+	sb_printf(s, "values=%d", st);
+	n = (int)nxl(k);
+	arr = calloc((size_t)n + 1, sizeof(void*));
+	names = calloc((size_t)n + 1, sizeof(void*));
+	if (!st) { st = sbdf_cs_create(&cs, values); sb_printf(s, " create=%d", st); }
+	for (i = 0; i < n; ++i)
+	{
+		int e;
+		names[i] = nxname(k);
+		e = parse_va(k, &arr[i]);
+		if (st) continue;
+		if (e) { sb_printf(s, " a%d=va%d", i, e); continue; }
+		e = sbdf_cs_add_property(cs, names[i], arr[i]);
+		sb_printf(s, " a%d=%d/%d", i, e, cs->prop_cnt);
+	}
+	m = (int)nxl(k);
+	if (!st)
+	{
+		sb_printf(s, " rows=%d", sbdf_cs_row_cnt(cs));
+		for (i = 0; i < n; ++i)
+		{
+			sbdf_valuearray* got = (sbdf_valuearray*)(void*)1;
+			int e = sbdf_cs_get_property(cs, names[i], &got), j;
+			sb_printf(s, " g%d=%d", i, e);
+			if (!e) { for (j = 0; j < n && arr[j] != got; ++j) {} sb_printf(s, "@%d", j); }
+		}
+		f_reset(g_f);
+		st = sbdf_cs_write(g_f, cs);
+		b = f_slurp(g_f, &nb);
+		sb_printf(s, " w=%d:", st);
+		sb_hexq(s, b, nb);
+		free(b);
+		st = sbdf_ts_create(0, &ts);
+		sb_printf(s, " ts=%d", st);
+		for (i = 0; i < m && !st; ++i) st = sbdf_ts_add(cs, ts);
+		if (!st)
+		{
+			int ok = ts->no_columns == m;
+			for (i = 0; i < ts->no_columns; ++i) ok = ok && ts->columns[i] == cs;
+			sb_printf(s, ":%d:%d", ts->no_columns, ok);
+		}
+		else sb_printf(s, ":add=%d", st);
+	}
+	/* the slice owns none of the arrays: accepted and rejected ones are still the caller's */
+	sbdf_ts_destroy(ts);
+	sbdf_cs_destroy(cs);
+	for (i = 0; i < n; ++i) { sbdf_va_destroy(arr[i]); free(names[i]); }
+	sbdf_va_destroy(values);
+	free(arr); free(names);
+	sb_printf(s, " live=%ld", vf_live - live0);
+}
+
 /* rt TABLE : build, write, read back (full), dump; bytes */
 static void sc_rt(SB* s, Toks* k, int rewrite)
 {
@@ -963,9 +1085,11 @@ static void process_line(char* line, SB* s)
 	if (ntok == 0) { free(k.t); return; }
 	kind = nx(&k);
 	/* optional prefixes */
-	while (!strncmp(kind, "cap=", 4) || !strcmp(kind, "full"))
+	long fa = -2, allocs0 = vf_allocs, fired0 = vf_fired;
+	while (!strncmp(kind, "cap=", 4) || !strcmp(kind, "full") || !strncmp(kind, "fa=", 3))
 	{
 		if (kind[0] == 'c') vf_cap = (size_t)strtoul(kind + 4, 0, 10);
+		else if (kind[1] == 'a') { fa = strtol(kind + 3, 0, 10); vf_fail_at = fa >= 0 ? vf_allocs + fa : -1; }
 		else g_full = 1;
 		kind = nx(&k);
 	}
@@ -983,10 +1107,18 @@ static void process_line(char* line, SB* s)
 	else if (!strcmp(kind, "md")) sc_md(s, &k);
 	else if (!strcmp(kind, "rt")) sc_rt(s, &k, 0);
 	else if (!strcmp(kind, "rtw")) sc_rt(s, &k, 1);
+	else if (!strcmp(kind, "rtd")) sc_rt(s, &k, 2);
+	else if (!strcmp(kind, "cs")) sc_cs(s, &k);
 	else if (!strcmp(kind, "fr")) sc_fr(s, &k, 0);
 	else if (!strcmp(kind, "frw")) sc_fr(s, &k, 1);
 	else if (!strcmp(kind, "fw")) sc_fw(s, &k);
 	else { fprintf(stderr, "harness: unknown scenario %s\n", kind); exit(4); }
+	if (fa != -2)
+	{
+		/* allocation-fault mode: how many allocation calls the scenario made, whether the fault fired */
+		sb_printf(s, " allocs=%ld fired=%ld", vf_allocs - allocs0, vf_fired - fired0);
+		vf_fail_at = -1;
+	}
 	free(k.t);
 }
 
